@@ -1,0 +1,455 @@
+//! Verification hooks, only compiled with `--cfg wilfred_garden_verif`.
+//!
+//! `garden verif` reads one request per line on stdin and writes one
+//! response line per request on stdout. Payload strings are
+//! hex-encoded UTF-8 so that any text is a single token. Every
+//! request is evaluated under `catch_unwind`; a panic is reported as
+//! `PANIC <hex message>` and the process keeps serving.
+//!
+//! The functions called here are the same ones the CLI calls; this
+//! exists for speed (thousands of cases per process), not to change
+//! behaviour.
+
+use std::io::{BufRead, Write};
+use std::path::PathBuf;
+use std::rc::Rc;
+
+use crate::checks::check_toplevel_items_in_env;
+use crate::env::Env;
+use crate::eval::load_toplevel_items;
+use crate::garden_type::{is_subtype, is_subtype_not_error, Type, TypeDefKind};
+use crate::parser::ast::{IdGenerator, Symbol, SymbolName, SyntaxId, TypeName};
+use crate::parser::lex::lex;
+use crate::parser::position::Position;
+use crate::parser::vfs::Vfs;
+use crate::parser::{parse_toplevel_items, ParseError};
+
+fn hex(s: &str) -> String {
+    let mut out = String::with_capacity(s.len() * 2);
+    for b in s.as_bytes() {
+        out.push_str(&format!("{b:02x}"));
+    }
+    out
+}
+
+fn unhex(s: &str) -> Result<String, String> {
+    if !s.len().is_multiple_of(2) {
+        return Err("odd hex length".to_owned());
+    }
+    let mut bytes = Vec::with_capacity(s.len() / 2);
+    let b = s.as_bytes();
+    for i in (0..b.len()).step_by(2) {
+        let h = std::str::from_utf8(&b[i..i + 2]).map_err(|e| e.to_string())?;
+        bytes.push(u8::from_str_radix(h, 16).map_err(|e| e.to_string())?);
+    }
+    String::from_utf8(bytes).map_err(|e| e.to_string())
+}
+
+fn pos_str(p: &Position) -> String {
+    format!(
+        "{}:{}:{}:{}:{}:{}",
+        p.start_offset, p.end_offset, p.line_number, p.end_line_number, p.column, p.end_column
+    )
+}
+
+fn verif_path() -> PathBuf {
+    PathBuf::from("/verif_input.gdn")
+}
+
+fn op_lex(src: &str) -> String {
+    let (vfs, vfs_path) = Vfs::singleton(verif_path(), src.to_owned());
+    let _ = vfs;
+    let (mut tokens, errors) = lex(&vfs_path, src);
+    let mut out = String::new();
+    while let Some(tok) = tokens.pop() {
+        out.push_str(&format!("(tok {} {}", hex(tok.text), pos_str(&tok.position)));
+        for (p, c) in &tok.preceding_comments {
+            out.push_str(&format!(" (c {} {})", hex(c), pos_str(p)));
+        }
+        out.push_str(") ");
+    }
+    for (p, c) in &tokens.trailing_comments {
+        out.push_str(&format!("(trail {} {}) ", hex(c), pos_str(p)));
+    }
+    for e in &errors {
+        out.push_str(&format!(
+            "(err {} {}) ",
+            hex(&e.message().as_string()),
+            pos_str(e.position())
+        ));
+    }
+    out
+}
+
+fn parse_errors_str(errors: &[ParseError]) -> String {
+    let mut out = String::new();
+    for e in errors {
+        let kind = match e {
+            ParseError::Invalid { .. } => "invalid",
+            ParseError::Incomplete { .. } => "incomplete",
+        };
+        out.push_str(&format!(
+            "(perr {} {} {}) ",
+            kind,
+            hex(&e.message().as_string()),
+            pos_str(e.position())
+        ));
+    }
+    out
+}
+
+/// The `{:#?}` rendering of the parsed items (positions are elided by
+/// `Position`'s Debug impl unless VERBOSE is set), plus parse errors.
+fn op_ast(src: &str) -> String {
+    let mut id_gen = IdGenerator::default();
+    let (_vfs, vfs_path) = Vfs::singleton(verif_path(), src.to_owned());
+    let (items, errors) = parse_toplevel_items(&vfs_path, src, &mut id_gen);
+    let mut dump = String::new();
+    for item in &items {
+        dump.push_str(&format!("{item:#?}\n"));
+    }
+    format!("(ast {}) {}", hex(&dump), parse_errors_str(&errors))
+}
+
+/// Lex, parse, check and format. Reports how many parse errors and
+/// diagnostics there were; the interesting outcome is "did not panic".
+fn op_front(src: &str) -> String {
+    let mut id_gen = IdGenerator::default();
+    let (vfs, vfs_path) = Vfs::singleton(verif_path(), src.to_owned());
+    let (items, errors) = parse_toplevel_items(&vfs_path, src, &mut id_gen);
+    let n_errors = errors.len();
+    let mut n_diags = 0;
+    if errors.is_empty() {
+        let mut env = Env::new(id_gen, vfs);
+        let ns = env.get_or_create_namespace(&verif_path());
+        let (mut diags, _) = load_toplevel_items(&items, &mut env, Rc::clone(&ns));
+        diags.extend(check_toplevel_items_in_env(&vfs_path, &items, &env, ns));
+        n_diags = diags.len();
+    }
+    let formatted = crate::format::format(src, &verif_path());
+    format!("(front {} {} {})", n_errors, n_diags, hex(&formatted))
+}
+
+/// Diagnostics and fixes of `check`, as the CLI would compute them.
+fn op_check(src: &str) -> String {
+    let mut id_gen = IdGenerator::default();
+    let (vfs, vfs_path) = Vfs::singleton(verif_path(), src.to_owned());
+    let (items, errors) = parse_toplevel_items(&vfs_path, src, &mut id_gen);
+    let mut out = parse_errors_str(&errors);
+    if errors.is_empty() {
+        let mut env = Env::new(id_gen, vfs);
+        let ns = env.get_or_create_namespace(&verif_path());
+        let (mut diags, _) = load_toplevel_items(&items, &mut env, Rc::clone(&ns));
+        diags.extend(check_toplevel_items_in_env(&vfs_path, &items, &env, ns));
+        for d in &diags {
+            out.push_str(&format!(
+                "(diag {:?} {} {}",
+                d.severity,
+                hex(&d.message.as_string()),
+                pos_str(&d.position)
+            ));
+            for f in &d.fixes {
+                out.push_str(&format!(
+                    " (fix {} {} {})",
+                    hex(&f.description),
+                    pos_str(&f.position),
+                    hex(&f.new_text)
+                ));
+            }
+            out.push_str(") ");
+        }
+    }
+    out
+}
+
+fn op_format(src: &str) -> String {
+    hex(&crate::format::format(src, &verif_path()))
+}
+
+// ---- S-expressions for types -------------------------------------------
+
+#[derive(Debug, Clone)]
+enum Sexp {
+    Atom(String),
+    List(Vec<Sexp>),
+}
+
+fn parse_sexp(toks: &[String], i: &mut usize) -> Result<Sexp, String> {
+    if *i >= toks.len() {
+        return Err("unexpected end of sexp".to_owned());
+    }
+    let t = &toks[*i];
+    *i += 1;
+    if t == "(" {
+        let mut items = vec![];
+        loop {
+            if *i >= toks.len() {
+                return Err("unclosed paren".to_owned());
+            }
+            if toks[*i] == ")" {
+                *i += 1;
+                return Ok(Sexp::List(items));
+            }
+            items.push(parse_sexp(toks, i)?);
+        }
+    } else if t == ")" {
+        Err("unexpected )".to_owned())
+    } else {
+        Ok(Sexp::Atom(t.clone()))
+    }
+}
+
+fn tokenize_sexp(s: &str) -> Vec<String> {
+    let spaced = s.replace('(', " ( ").replace(')', " ) ");
+    spaced.split_whitespace().map(|t| t.to_owned()).collect()
+}
+
+fn parse_sexps(s: &str) -> Result<Vec<Sexp>, String> {
+    let toks = tokenize_sexp(s);
+    let mut i = 0;
+    let mut out = vec![];
+    while i < toks.len() {
+        out.push(parse_sexp(&toks, &mut i)?);
+    }
+    Ok(out)
+}
+
+fn atom(s: &Sexp) -> Result<&str, String> {
+    match s {
+        Sexp::Atom(a) => Ok(a),
+        Sexp::List(_) => Err("expected atom".to_owned()),
+    }
+}
+
+fn type_name(s: &str) -> TypeName {
+    TypeName { text: s.to_owned() }
+}
+
+/// Types: `(any)`, `(tuple T…)`, `(fn name|- (tparams N…) (params T…) R)`,
+/// `(user enum|struct Name T…)`, `(param Name)`, `(err)`.
+fn sexp_to_type(s: &Sexp) -> Result<Type, String> {
+    let Sexp::List(items) = s else {
+        return Err("type must be a list".to_owned());
+    };
+    let head = atom(items.first().ok_or("empty type")?)?;
+    match head {
+        "any" => Ok(Type::Any),
+        "tuple" => Ok(Type::Tuple(
+            items[1..]
+                .iter()
+                .map(sexp_to_type)
+                .collect::<Result<Vec<_>, _>>()?,
+        )),
+        "fn" => {
+            if items.len() != 5 {
+                return Err("fn needs 4 arguments".to_owned());
+            }
+            let name = atom(&items[1])?;
+            let name_sym = if name == "-" {
+                None
+            } else {
+                Some(Symbol {
+                    position: Position::todo(&Vfs::singleton(verif_path(), String::new()).1),
+                    name: SymbolName {
+                        text: name.to_owned(),
+                    },
+                    id: SyntaxId(0),
+                    interned_id: crate::parser::ast::InternedSymbolId(0),
+                })
+            };
+            let Sexp::List(tps) = &items[2] else {
+                return Err("tparams".to_owned());
+            };
+            let Sexp::List(ps) = &items[3] else {
+                return Err("params".to_owned());
+            };
+            let type_params = tps[1..]
+                .iter()
+                .map(|a| atom(a).map(type_name))
+                .collect::<Result<Vec<_>, _>>()?;
+            let params = ps[1..]
+                .iter()
+                .map(sexp_to_type)
+                .collect::<Result<Vec<_>, _>>()?;
+            Ok(Type::Fun {
+                name_sym,
+                type_params,
+                params,
+                return_: Box::new(sexp_to_type(&items[4])?),
+            })
+        }
+        "user" => {
+            let kind = match atom(&items[1])? {
+                "enum" => TypeDefKind::Enum,
+                "struct" => TypeDefKind::Struct,
+                _ => return Err("kind".to_owned()),
+            };
+            Ok(Type::UserDefined {
+                kind,
+                name: type_name(atom(&items[2])?),
+                args: items[3..]
+                    .iter()
+                    .map(sexp_to_type)
+                    .collect::<Result<Vec<_>, _>>()?,
+            })
+        }
+        "param" => Ok(Type::TypeParameter(type_name(atom(&items[1])?))),
+        "err" => Ok(Type::error("verif")),
+        _ => Err(format!("unknown type head {head}")),
+    }
+}
+
+fn type_to_sexp(ty: &Type) -> String {
+    match ty {
+        Type::Any => "(any)".to_owned(),
+        Type::Tuple(items) => {
+            let mut s = "(tuple".to_owned();
+            for i in items {
+                s.push(' ');
+                s.push_str(&type_to_sexp(i));
+            }
+            s.push(')');
+            s
+        }
+        Type::Fun {
+            name_sym,
+            type_params,
+            params,
+            return_,
+        } => {
+            let name = match name_sym {
+                Some(sym) => sym.name.text.clone(),
+                None => "-".to_owned(),
+            };
+            let mut s = format!("(fn {name} (tparams");
+            for tp in type_params {
+                s.push(' ');
+                s.push_str(&tp.text);
+            }
+            s.push_str(") (params");
+            for p in params {
+                s.push(' ');
+                s.push_str(&type_to_sexp(p));
+            }
+            s.push_str(") ");
+            s.push_str(&type_to_sexp(return_));
+            s.push(')');
+            s
+        }
+        Type::UserDefined { kind, name, args } => {
+            let k = match kind {
+                TypeDefKind::Enum => "enum",
+                TypeDefKind::Struct => "struct",
+            };
+            let mut s = format!("(user {k} {}", name.text);
+            for a in args {
+                s.push(' ');
+                s.push_str(&type_to_sexp(a));
+            }
+            s.push(')');
+            s
+        }
+        Type::TypeParameter(n) => format!("(param {})", n.text),
+        Type::Error { .. } => "(err)".to_owned(),
+    }
+}
+
+fn op_types(op: &str, rest: &str) -> Result<String, String> {
+    let sexps = parse_sexps(rest)?;
+    let tys = sexps
+        .iter()
+        .map(sexp_to_type)
+        .collect::<Result<Vec<_>, _>>()?;
+    match op {
+        "subtype" => {
+            if tys.len() != 2 {
+                return Err("subtype needs 2 types".to_owned());
+            }
+            Ok(format!("{}", is_subtype(&tys[0], &tys[1])))
+        }
+        "subtype_ne" => {
+            if tys.len() != 2 {
+                return Err("subtype_ne needs 2 types".to_owned());
+            }
+            Ok(format!("{}", is_subtype_not_error(&tys[0], &tys[1])))
+        }
+        "unify" => {
+            if tys.len() != 2 {
+                return Err("unify needs 2 types".to_owned());
+            }
+            Ok(match crate::checks::type_checker::verif_unify(&tys[0], &tys[1]) {
+                Some(t) => format!("(some {})", type_to_sexp(&t)),
+                None => "(none)".to_owned(),
+            })
+        }
+        "unify_all" => Ok(match crate::checks::type_checker::verif_unify_all(&tys) {
+            Ok(t) => format!("(ok {})", type_to_sexp(&t)),
+            Err(idx) => format!("(fail {idx})"),
+        }),
+        "tydisplay" => {
+            if tys.len() != 1 {
+                return Err("tydisplay needs 1 type".to_owned());
+            }
+            Ok(hex(&format!("{}", tys[0])))
+        }
+        _ => Err("unknown type op".to_owned()),
+    }
+}
+
+fn handle(line: &str) -> Result<String, String> {
+    let line = line.trim_end_matches(['\n', '\r']);
+    let (op, rest) = match line.split_once(' ') {
+        Some((op, rest)) => (op, rest),
+        None => (line, ""),
+    };
+    match op {
+        "ping" => Ok("pong".to_owned()),
+        "lex" => Ok(op_lex(&unhex(rest)?)),
+        "ast" => Ok(op_ast(&unhex(rest)?)),
+        "front" => Ok(op_front(&unhex(rest)?)),
+        "check" => Ok(op_check(&unhex(rest)?)),
+        "format" => Ok(op_format(&unhex(rest)?)),
+        "subtype" | "subtype_ne" | "unify" | "unify_all" | "tydisplay" => op_types(op, rest),
+        "lsp_o2p" | "lsp_lc2o" | "lsp_whole" => crate::lsp::verif_lsp_op(op, rest),
+        _ => Err(format!("unknown op {op}")),
+    }
+}
+
+pub(crate) fn verif_unhex(s: &str) -> Result<String, String> {
+    unhex(s)
+}
+
+static LAST_PANIC: std::sync::Mutex<String> = std::sync::Mutex::new(String::new());
+
+pub(crate) fn main() {
+    // Panics are reported on the response line (with their
+    // location); keep stderr quiet.
+    std::panic::set_hook(Box::new(|info| {
+        if let Ok(mut last) = LAST_PANIC.lock() {
+            *last = info.to_string();
+        }
+    }));
+
+    let stdin = std::io::stdin();
+    let stdout = std::io::stdout();
+    for line in stdin.lock().lines() {
+        let Ok(line) = line else {
+            break;
+        };
+        let result = std::panic::catch_unwind(|| handle(&line));
+        let response = match result {
+            Ok(Ok(s)) => format!("OK {s}"),
+            Ok(Err(e)) => format!("ERR {}", hex(&e)),
+            Err(_) => {
+                let msg = match LAST_PANIC.lock() {
+                    Ok(last) => last.clone(),
+                    Err(_) => "unknown panic".to_owned(),
+                };
+                format!("PANIC {}", hex(&msg))
+            }
+        };
+        let mut out = stdout.lock();
+        let _ = writeln!(out, "{response}");
+        let _ = out.flush();
+    }
+}
